@@ -50,6 +50,7 @@ type sessionPort struct {
 	nextEx    int
 	reader    chan rsResult // non-nil while a ReadSlices call is outstanding
 	lastRsErr error         // what the last ReadSlices returned, for ReadBackoff
+	holdEx    bool          // exchange channels are not read for now
 	lastBig   *mqtt.BigMessage
 	oldBuf    int
 	gen       int
@@ -273,7 +274,7 @@ func (p *sessionPort) flushParts(extraWaitForTicker bool) ([]string, []string) {
 		out = append(out, l)
 	}
 	for _, e := range p.exch {
-		for !e.over {
+		for !e.over && !p.holdEx {
 			select {
 			case err, ok := <-e.ch:
 				if !ok {
@@ -659,6 +660,12 @@ func (p *sessionPort) exec(f []string) []string {
 			p.cur.openGate(o)
 		}
 		return p.flush(nil, true)
+	case "exhold": // the application stops reading its exchange channels
+		p.holdEx = true
+		return nil
+	case "exread":
+		p.holdEx = false
+		return p.flush(nil, false)
 	case "txn":
 		mqtt.VerifSetUnorderedCounter(p.client, uint(atoi(f[1])))
 		return nil
